@@ -24,7 +24,7 @@ META = {
     "encoded": ["csr.bus.Decoder.__init__", "csr.bus.Decoder.add", "csr.bus.Decoder.align_to",
                 "csr.bus.Decoder.elaborate", "memory.MemoryMap.add_window", "memory.MemoryMap.window_patterns",
                 "memory.MemoryMap.windows", "memory.MemoryMap._compute_addr_range"],
-    "also": 'a refused add() (out-of-bounds address) left attached as an arbitrary bus; decoders elaborated once after k adds and extended afterwards; the ranges returned by add() are the oracle and windows() must agree; 12/16-bit address decoders; a single window filling the whole address space, a lone window smaller than it; a subordinate whose memory map object is also a window of a second decoder; flat-vs-tree bounded miter',
+    "also": 'a refused add() (out-of-bounds address; a second interface carrying the memory map of an accepted subordinate) left attached as an arbitrary bus; decoders elaborated once after k adds and extended afterwards; the ranges returned by add() are the oracle and windows() must agree; 12/16-bit address decoders; a single window filling the whole address space, a lone window smaller than it; a subordinate whose memory map object is also a window of a second decoder; flat-vs-tree bounded miter',
     "bounds": "addr width 3-7 (thorough 3-9), data width 8/16, 0-4 (thorough 0-6) subordinate windows of width "
               "1..aw-1, implicit / explicit aligned / align_to placement, decoder alignment 0-3 including alignment "
               "larger than a window (padded windows), named and anonymous, seeded add orders, one level of nesting",
@@ -78,6 +78,17 @@ def _build(cfg):
             raise AssertionError("out-of-bounds window accepted")
         except ValueError:
             rejected.append(rb)
+    if cfg.get("rejected_twin") is not None and subs:
+        # ... and so must the refused add() of a SECOND interface that carries the memory map of a subordinate the
+        # decoder already has (the window is "already added"): the first interface stays the routed one
+        first = subs[cfg["rejected_twin"] % len(subs)]
+        tw = csr.Interface(addr_width=first.addr_width, data_width=cfg["dw"], path=("twin",))
+        tw.memory_map = first.memory_map
+        try:
+            dec.add(tw)
+            raise AssertionError("the same window accepted twice")
+        except ValueError:
+            rejected.append(tw)
     dec._verif_rejected = rejected
     return dec, subs
 
@@ -92,7 +103,8 @@ def configs(tier, seed):
         aw = rnd.randint(3, 7 if tier == "quick" else 9) if tries % 25 else rnd.choice([12, 16])
         cfg = {"aw": aw, "dw": rnd.choice([8, 16]), "align": rnd.choice([0, 0, 0, 1, 2, 3]), "subs": [],
                "rejected": rnd.random() < 0.3, "staged": rnd.choice([None, None, 1, 2]), "shared_map": tries % 5 == 2,
-               "names": {3: "same", 5: "none"}.get(tries % 7)}
+               "names": {3: "same", 5: "none"}.get(tries % 7),
+               "rejected_twin": (tries // 3) % 4 if tries % 3 == 1 else None}
         for i in range(rnd.randint(1, 4 if tier == "quick" else 6)):
             s = {"aw": rnd.randint(1, aw - 1), "named": rnd.random() < 0.5, "res": rnd.random() < 0.7}
             mode = rnd.choice(["implicit", "implicit", "explicit", "align_to"])
